@@ -219,7 +219,7 @@ func factsOf(c FCase, fired []string) facts {
 		if !benignShapes[s] {
 			f.hostile[s] = true
 		}
-		if fatalShapes[s] && !seenFatal[s] {
+		if fatalShapes[s] && !seenFatal[s] && !(s == shProcNilForever && contains(fired, shNilForeverOverridden)) {
 			seenFatal[s] = true
 			f.fatal = append(f.fatal, s)
 		}
@@ -236,8 +236,17 @@ func factsOf(c FCase, fired []string) facts {
 	// of which a later processor/destination resolves only a part (documented coded refusals
 	// pipeline.empty_source_position / pipeline.split_run_straddles_fanout).
 	f.mayFail = fs[shProcLong] || fs[shProcErrorNil] || fs[shSrcDupPos] || fs["dst-"+shAckEmpty] || fs["dlq-"+shAckEmpty] ||
-		fs[shCondShort] || fs[shSplitEmptyPos] || fs[shSplitDupPos] || f.nackRisk || (f.split && (fs[shProcShort] || fs[shProcNil] || fs[shProcNilForever] || fs[shProcError] || fs["dst-"+shAckNack]))
+		fs[shCondShort] || fs[shNilForeverOverridden] || fs[shSplitEmptyPos] || fs[shSplitDupPos] || f.nackRisk || (f.split && (fs[shProcShort] || fs[shProcNil] || fs[shProcNilForever] || fs[shProcError] || fs["dst-"+shAckNack]))
 	return f
+}
+
+func contains(l []string, s string) bool {
+	for _, x := range l {
+		if x == s {
+			return true
+		}
+	}
+	return false
 }
 
 func subset(m map[string]bool, allowed ...string) bool {
@@ -352,14 +361,12 @@ func checkFunnel(c FCase, r *runResult) (out []violation, rules []string) {
 				fmt.Sprintf("an empty source position must be refused with %s, got code %q: %v; history:%s", funnel.CodeEmptySourcePosition.Reason(), code, r.doErr, hist)})
 		}
 	case len(f.fatal) == 0 && !f.anyProcShape && !f.nackRisk && len(f.hostile) > 0 && subset(f.hostile, shSrcDupPos):
-		rules = append(rules, "rule:duplicate-position-refused-only-at-fan-out")
-		if len(c.Branches) >= 2 && code != funnel.CodeDuplicateSourcePosition.Reason() {
+		rules = append(rules, "rule:duplicate-position-refused-with-code")
+		// documented at least at a fan-out (and harmless elsewhere): whenever the engine stops
+		// because of duplicates it must be with the coded refusal
+		if code != funnel.CodeDuplicateSourcePosition.Reason() {
 			out = append(out, violation{"C09/undocumented-handling/duplicate-position",
-				fmt.Sprintf("duplicate positions at a fan-out must be refused with %s, got code %q: %v; history:%s", funnel.CodeDuplicateSourcePosition.Reason(), code, r.doErr, hist)})
-		}
-		if len(c.Branches) < 2 {
-			out = append(out, violation{"C09/undocumented-handling/duplicate-position",
-				fmt.Sprintf("duplicate positions without a fan-out do not matter, but the pipeline stopped: %v; history:%s", r.doErr, hist)})
+				fmt.Sprintf("duplicate positions must be refused with %s or be handled, got code %q: %v; history:%s", funnel.CodeDuplicateSourcePosition.Reason(), code, r.doErr, hist)})
 		}
 	}
 	return out, rules
